@@ -219,8 +219,20 @@ macro_rules! hvec_caps {
 }
 
 #[kani::proof]
+#[kani::unwind(8)]
+//@ tier=quick class=core cap=900 bounds="all u32 values x heapless::Vec<u8,C> for every C in 0..=6; plain"
+fn c05_hvec_plain_u32() {
+    let v: u32 = kani::any();
+    let mut big = [0u8; 8];
+    let reference = postcard::to_slice(&v, &mut big).unwrap();
+    let n = reference.len();
+    hvec_caps!(&v, n, reference, to_vec, 0usize, [0, 1, 2, 3, 4, 5, 6]);
+    kani::cover!(n == 5, "longest encoding reachable");
+}
+
+#[kani::proof]
 #[kani::unwind(13)]
-//@ tier=quick class=core cap=900 bounds="all u64 values x heapless::Vec<u8,C> for every C in 0..=11; plain"
+//@ tier=thorough class=core cap=1800 bounds="all u64 values x heapless::Vec<u8,C> for every C in 0..=11; plain"
 fn c05_hvec_plain_u64() {
     let v: u64 = kani::any();
     let mut big = [0u8; 12];
